@@ -56,7 +56,7 @@ def make_case(unit):
     template = TEMPLATES[i % len(TEMPLATES)]
     j = i // len(TEMPLATES)
     wmode = WEIGHTS[j % len(WEIGHTS)]
-    ins = INS[(j // len(WEIGHTS)) % len(INS)]
+    ins = INS[gen.stratum(ID, i, 1, len(INS))]
     N = g.pick([1, 4, 8, 12, 20, 30, 45, 60])
     facets = cases.random_facets(g, template, N)
     cases.entangle_some(g, facets)
@@ -64,6 +64,8 @@ def make_case(unit):
     if ins != "none":
         cases.attach_insertions(g, facets, transforms, allow_diff=(ins == "diff"),
                                 disjoint=True, hide_some=False)
+    if ins == "diff" and g.chance(0.35):
+        cases.add_first_element_difference(g, facets, transforms)
     if template == "cat_date" and g.chance(0.7):
         from .c04 import _date_diffs
 
